@@ -7,8 +7,8 @@ import icontract
 import torch
 import torchtt
 
-from rt_common import (case_id, clause, contract, dense, fro, inner, norm_shape, is_op_shape, rand_tt, seed_all,
-                       shape_of, snapshot_tt, unchanged, within)
+from rt_common import (case_id, clause, contract, dense, fro, inner, norm_shape, is_op_shape, rand_tt, scale_tag, scale_tt,
+                       seed_all, shape_of, snapshot_tt, unchanged, within)
 
 TOL = 1e-9
 P = lambda x, z: torchtt.manifold.riemannian_projection(x, z)   # noqa: E731  (the raw library function)
@@ -169,11 +169,11 @@ def base_point(shape, R, dt=torch.float64):
 def run_case(a, check):
     shape = norm_shape(a["shape"])
     seed_all(a["seed"])
-    x = base_point(shape, a["R"])
+    x = scale_tt(torchtt, base_point(shape, a["R"]), a.get("s_x"))       # round 2: base points far from norm 1
     op = a["op"]
     if op == "projection":
-        z = rand_tt(torchtt, shape, a["rz"], torch.float64)
-        w = rand_tt(torchtt, shape, a["rw"], torch.float64)
+        z = scale_tt(torchtt, rand_tt(torchtt, shape, a["rz"], torch.float64), a.get("s_z"))
+        w = scale_tt(torchtt, rand_tt(torchtt, shape, a["rw"], torch.float64), a.get("s_w"))
         check("P(z)", lambda: projection(x, z))
         check("P(x)", lambda: projection_of_base_point(x))
         check("pair", lambda: projection_pair(x, z, w, a["alpha"], a["beta"]))
@@ -191,7 +191,9 @@ def _mk(op, shape, R, seed, **kw):
     shape = [list(s) if isinstance(s, tuple) else s for s in shape]
     a = {"op": op, "shape": shape, "R": list(R), "seed": seed}
     a.update(kw)
-    extra = ["%s=%s" % (k, ("%g" % v) if isinstance(v, float) else v) for k, v in sorted(kw.items())]
+    extra = ["%s=%s" % (k, ("%g" % v) if isinstance(v, float) else v) for k, v in sorted(kw.items())
+             if k not in ("s_x", "s_z", "s_w")]
+    extra += ["%s:%s" % (k[2:], scale_tag(kw[k])) for k in ("s_x", "s_z", "s_w") if kw.get(k)]
     a["id"] = case_id(op, "ttm" if is_op_shape(shape) else "tt", "N=%s" % str(shape).replace(" ", ""),
                       "R=%s" % str(list(R)).replace(" ", ""), *extra, "seed=%d" % seed)
     return a
@@ -227,6 +229,32 @@ def enumerate_cases(tier, seed):
                     cases.append(_mk("projection", shape, R, s, rz=rz, rw=rw, alpha=al, beta=be))
             for f in ("quadratic", "linear", "quartic"):
                 cases.append(_mk("gradient", shape, R, s, f=f))
+    cases += scaled_cases(tier, seed)
+    return cases
+
+
+def scaled_cases(tier, seed):
+    """Round 2 family: base points and directions scaled by 1e-4 / 1e4 (one core, spread, alternating per core)."""
+    quick = tier == "quick"
+    one = lambda f, k: {"mode": "one", "factor": f, "core": k}    # noqa: E731
+    spread = lambda f: {"mode": "spread", "factor": f}            # noqa: E731
+    alt = lambda p: {"mode": "alt", "p": p}                       # noqa: E731
+    combos = [(one(1e-4, 0), None, None), (one(1e4, -1), None, None), (spread(1e4), spread(1e-4), spread(1e4)),
+              (spread(1e-4), spread(1e4), spread(1e4)), (alt(3), one(1e4, 0), one(1e-4, -1)), (None, spread(1e4), spread(1e-4)),
+              (alt(-2), alt(2), alt(-2))]
+    if not quick:
+        combos += [(one(1e4, 0), one(1e-4, 0), None), (spread(-1e-4), None, spread(-1e4)), (one(1e-4, 1), alt(3), alt(3))]
+    base = [QUICK_BASE[i] for i in (0, 3, 4, 7, 9, 10, 11, 13)] if quick else THOROUGH_BASE
+    seeds = [seed] if quick else [seed, 1]
+    cases = []
+    for shape, R in base:
+        for (sx, sz, sw) in combos:
+            for s in seeds:
+                kw = {k: v for k, v in (("s_x", sx), ("s_z", sz), ("s_w", sw)) if v}
+                cases.append(_mk("projection", shape, R, s, rz=3, rw=2, alpha=-2.5, beta=0.75, **kw))
+                if sx:
+                    for f in ("quadratic", "linear", "quartic"):
+                        cases.append(_mk("gradient", shape, R, s, f=f, s_x=sx))
     return cases
 
 
@@ -241,7 +269,11 @@ def bound(tier, seed):
                 "dense T, C; seeds {%d,1}; float64. Contracts (relative tolerance 1e-9, dense inner products): "
                 "P(az+bw)=aPz+bPw, P(Pz)=Pz, <Pz,w>=<z,Pw>, P(x)=x, <z-Pz,Pw>=0 and <z-Pz,Pz>=0, ranks(Pz)<=2*ranks(x), same "
                 "shape, x and z bit-for-bit unchanged; riemannian_gradient(x,f) == P(TT(autograd gradient of f at dense x, "
-                "eps=1e-14)), x unchanged and not left with requires_grad." % seed)
+                "eps=1e-14)), x unchanged and not left with requires_grad. ROUND-2 FAMILY: 8 of the base points (orders 2..5, tensors and "
+                "operators) with (x, z, w) rescaled by {(first core x1e-4,-,-), (last core x1e4,-,-), (1e4 spread, 1e-4 spread, 1e4 "
+                "spread), (1e-4 spread, 1e4 spread, 1e4 spread), (core k x10**(3(-1)**k), first core x1e4, last core x1e-4), "
+                "(-, 1e4 spread, 1e-4 spread), (core k x10**(-+2(-1)**k) on all three)}; all identities and the three gradient "
+                "functions at the rescaled base points; same relative tolerance 1e-9." % seed)
     return ("C16 thorough: as quick with 25 base points (orders 2..5, ranks up to 8, TT matrices up to order 5 incl. "
             "non-square modes), (rz,rw) in {(1,5),(3,2),(6,6),(2,1)}, (alpha,beta) in {(1,1),(-2.5,0.75),(0,3),(1e3,-1e-3)}, "
             "seeds {%d,1,2,3}." % seed)
